@@ -575,6 +575,9 @@ class _StatefulSingleProcessDataLoaderIter(_StatefulBaseDataLoaderIter):
                     )
                     for _ in range(self._num_yielded):
                         next(self)
+                    # next() counted the replayed batches a second time
+                    self._num_yielded = state_dict[self._NUM_YIELDED]
+                    self._sampler_iter_yielded = state_dict[_SAMPLER_ITER_YIELDED]
         self._finished = state_dict[_ITERATOR_FINISHED]
 
 
@@ -1072,15 +1075,18 @@ class _StatefulMultiProcessingDataLoaderIter(_StatefulBaseDataLoaderIter):
 
             if fast_forward:
                 # If neither dataset / dataset iter are stateful, we will fast-forward
+                # from the start of the epoch; next() counts the replayed batches itself
+                fast_forward_steps = self._num_yielded
+                self._num_yielded = 0
                 for _ in range(self._prefetch_factor * self._num_workers):
                     self._try_put_index()
-                if self._num_yielded > 0:
+                if fast_forward_steps > 0:
                     logger.warning(
                         f"Neither dataset nor iter(dataset) defines state_dict/load_state_dict so we are "
-                        f"naively fast-forwarding your dataset by {self._num_yielded} steps. For more efficient "
+                        f"naively fast-forwarding your dataset by {fast_forward_steps} steps. For more efficient "
                         f"resumes, please implement `state_dict` and `load_state_dict` in your IterableDataset and/or iterator."
                     )
-                    for _ in range(self._num_yielded):
+                    for _ in range(fast_forward_steps):
                         next(self)
                 # Check if last_yielded_worker_id matches
                 if self._last_yielded_worker_id != next_iter_state[self._SNAPSHOT][self._LAST_YIELDED_WORKER_ID]:
